@@ -21,7 +21,7 @@ RULE = ("all labelled graphs on <= 4 (quick) / <= 5 (thorough) vertices x all ac
 ASSUMPTIONS = ["z3 decides the posted aux-variable program correctly (SAT answers are re-validated by M-SOLVE, UNSAT answers are trusted)",
                "primitive route: stand-in semantics of graph-active-vertices-connected = induced-subgraph connectivity"]
 REQUIRED = ["avc.pointwise", "avc.oracle.valid", "avc.oracle.invalid", "avc.acyclic", "avc.primitive", "avc.grid", "avc.form.neg",
-            "avc.form.expr", "avc.form.const", "avc.accepted_set_solves", "msolve.model_checked", "mwire.exchanges", "avc.random_graphs",
+            "avc.form.expr", "avc.form.const", "avc.accepted_set_solves", "msolve.model_checked", "mwire.exchanges", "avc.random_graphs", "avc.graph_reused_after_add_edge",
             "avc.one_vertex", "avc.disconnected_graph", "avc.winding_grids", "avc.long_paths"]
 
 
@@ -266,6 +266,19 @@ def run(ctx):
         ctx.count("avc.random_graphs")
         if k == 0:
             ctx.sample({"n": n, "edges": edges, "acyclic": acyclic, "patterns": pats[:3]})
+    # histories: the same Graph object is used, extended by add_edge, and used again
+    for g, n, edges, new in D.grown_graphs(rng, 3 if not thorough else 40):
+        acyclic = rng.random() < 0.5
+        prim = rng.random() < 0.3
+
+        def post(s, act, g=g, acyclic=acyclic, prim=prim):
+            graph.active_vertices_connected(s, act, g, acyclic=acyclic, use_graph_primitive=prim)
+
+        with ctx.guard(300):
+            D.pointwise(ctx, "avc", n, post, oracle(n, edges, acyclic), D.patterns_around(rng, n, edges, new, 6),
+                        backend=(be if (prim and not acyclic) else None), forms=("var",),
+                        desc={"n": n, "edges": [list(e) for e in edges], "acyclic": acyclic, "primitive": prim, "grown": True}, rng=rng)
+        ctx.count("avc.graph_reused_after_add_edge")
     mwire.uninstall()
     msolve.uninstall()
 
